@@ -75,7 +75,8 @@ ActAlive(e) == IF Has(e, "net") THEN SetSet(e.net.alive) ELSE alive
 ActUp(e) == IF Has(e, "net") THEN PairSet(e.net.up) ELSE up
 ActCbs(e) == IF Has(e, "cbs") THEN [k \in DOMAIN cbs \cup DOMAIN e.cbs |-> IF k \in DOMAIN e.cbs THEN e.cbs[k] ELSE cbs[k]] ELSE cbs
 ActNexc(e) == IF Has(e, "nexc") THEN e.nexc ELSE nexc
-SnapContent(r) == [size |-> r.size, last |-> r.last, prev |-> r.prev, hist |-> r.hist, cluster |-> ToSet(r.cluster), ver |-> r.ver]
+SnapContent(r) == [size |-> r.size, last |-> r.last, prev |-> r.prev, hist |-> r.hist, cluster |-> ToSet(r.cluster), ver |-> r.ver,
+                   ahead |-> r.ahead]
 ActSnaps(e) == IF Has(e, "newsnaps")
                THEN AddSnaps(snaps, [k \in 1..Len(e.newsnaps) |-> [sid |-> e.newsnaps[k].sid, content |-> SnapContent(e.newsnaps[k])]])
                ELSE snaps
